@@ -344,8 +344,6 @@ pub open spec fn dp_steps<M: Math, R: rand::Rng, A: AdaptStrategy<M, Hamiltonian
     &&& c1.last_info is Some
     &&& p.draw == c0.draw_count && p.chain == c0.chain && c1.draw_count == c0.draw_count + 1
     &&& p.diverging == c1.last_info->0.diverging && p.num_steps == c1.last_info->0.num_steps
-    // the step size reported is the one in force for this draw
-    &&& p.step_size.r() == eps
     &&& (!p.diverging ==> i2r(p.num_steps as int) >= nbs
             && total_time_is(c1.last_info->0.average_step_size.r(), p.num_steps as int, nbs, eps)
             && c1.state.view().idx == p.num_steps)
@@ -353,12 +351,18 @@ pub open spec fn dp_steps<M: Math, R: rand::Rng, A: AdaptStrategy<M, Hamiltonian
             && c1.state.view().idx == 0 && c1.state.view().e0 == c1.state.view().energy)
     &&& (!c0.dynamic_step_size && !p.diverging ==> i2r(p.num_steps as int) == nbs)
 }
+/// [C18.1] the step size handed to the caller is the eps in force for this draw (the one num_steps refers to),
+/// not the one adapt() has just chosen for the next draw
+pub open spec fn dp_stepsize<M: Math, R: rand::Rng, A: AdaptStrategy<M, Hamiltonian = TransformedHamiltonian<M, T>>, T: Transformation<M>>(c0: MclmcChain<M, R, A, T>, p: Progress) -> bool {
+    p.step_size.r() == c0.hamiltonian.step_size.r()
+}
 pub open spec fn mc_draw_post<M: Math, R: rand::Rng, A: AdaptStrategy<M, Hamiltonian = TransformedHamiltonian<M, T>>, T: Transformation<M>>(
     c0: MclmcChain<M, R, A, T>, c1: MclmcChain<M, R, A, T>, r: Result<(Box<[F]>, Progress)>) -> bool
 {
     &&& dp_frame(c0, c1)
     &&& dp_switch(c0, c1)
-    &&& (r is Ok ==> dp_tuning(c0, c1, r->Ok_0.1) && dp_steps(c0, c1, r->Ok_0.1) && c1.adapt.inv(c1.draw_count))
+    &&& (r is Ok ==> dp_tuning(c0, c1, r->Ok_0.1) && dp_steps(c0, c1, r->Ok_0.1) && dp_stepsize(c0, r->Ok_0.1)
+            && c1.adapt.inv(c1.draw_count))
 }
 
 // ---- inductive lemmas over draw indices -----------------------------------------------------------
@@ -377,6 +381,20 @@ pub open spec fn draw_step(a: ChainView, b: ChainView, resampled: bool, reported
     &&& resampled == sw
     &&& b.tuning == (a.tuning && a.draw_count < a.num_tune)
     &&& reported == b.tuning
+}
+/// the view of a concrete chain
+pub open spec fn chain_view<M: Math, R: rand::Rng, A: AdaptStrategy<M, Hamiltonian = TransformedHamiltonian<M, T>>, T: Transformation<M>>(c: MclmcChain<M, R, A, T>) -> ChainView {
+    ChainView { draw_count: c.draw_count as int, tkind: c.trajectory_kind, switch_draw: c.switch_draw as int,
+                hkind: c.hamiltonian.kinetic_energy_kind, tuning: c.adapt.tuning_view(), num_tune: c.adapt.num_tune_view() as int }
+}
+/// the contract proved for `MclmcChain::draw` (mc_draw_post, plus the [C18.3] assertion on the flag passed to
+/// the kernel) is the step relation the inductive lemmas below are about
+// [C18.3 C06.3]
+pub proof fn lemma_post_is_step<M: Math, R: rand::Rng, A: AdaptStrategy<M, Hamiltonian = TransformedHamiltonian<M, T>>, T: Transformation<M>>(
+    c0: MclmcChain<M, R, A, T>, c1: MclmcChain<M, R, A, T>, r: Result<(Box<[F]>, Progress)>)
+    requires mc_draw_pre(c0), mc_draw_post(c0, c1, r), r is Ok
+    ensures draw_step(chain_view(c0), chain_view(c1), switch_now(c0), r->Ok_0.1.tuning)
+{
 }
 /// a run of n draws from a fresh chain: tr[i] is the chain before draw i
 pub open spec fn is_run(tr: Seq<ChainView>, res: Seq<bool>, rep: Seq<bool>) -> bool {
